@@ -1,4 +1,4 @@
-from bisect import bisect
+from bisect import bisect, bisect_left
 from decimal import Decimal
 from enum import IntEnum
 from functools import total_ordering
@@ -158,6 +158,7 @@ class TimingEngine:
     timing_data: TimingData
     _tagged_beats: MutableSequence[Tuple[Beat, EventTag]]
     _tagged_times: MutableSequence[Tuple[SongTime, EventTag]]
+    _times: List[SongTime]
     _state_machine: TimingStateMachine
 
     def __init__(self, timing_data: TimingData):
@@ -259,6 +260,7 @@ class TimingEngine:
                 cast(List[TimingState], self._state_machine),
             )
         )
+        self._times = [time for (time, _) in self._tagged_times]
 
     def bpm_at(self, beat: Beat) -> Decimal:
         """
@@ -356,10 +358,18 @@ class TimingEngine:
         Keep in mind that this situation is floating-point precise, so
         it's unlikely for the `event_tag` to ever make a difference.
         """
-        tagged_time = (time, event_tag)
+        # Search by time alone: the tags of states that share a time are not
+        # sorted (e.g. a stop that ends inside a warp), so bisecting on
+        # (time, tag) pairs could land on either side of such a run.
+        # WARP asks for the first state reached at this time, any other tag
+        # for the last one.
+        if event_tag == EventTag.WARP:
+            next_state_index = bisect_left(self._times, time)
+        else:
+            next_state_index = bisect(self._times, time)
 
         # Same caveat as `time_at`
-        prior_state_index = max(0, bisect(self._tagged_times, tagged_time) - 1)
+        prior_state_index = max(0, next_state_index - 1)
         prior_state: TimingState = self._state_machine[prior_state_index]
         prior_state_beat = prior_state.event.beat
 
